@@ -177,6 +177,8 @@ TABLE.update({
     "c12_edges_unresolved_name.diff": ("box", "contracts.c12:collect_edges:collect_edges_arg_sets", None),
     "c10_mst_not_minimal.diff": ("box", "contracts.c10:mst:mst_arg_sets", None),
     "c10_mst_stops_early.diff": ("box", "contracts.c10:mst:mst_arg_sets", None),
+    "c18_pole_reach_of_one_end.diff": ("box", "contracts.c18:connect_nearest:connect_arg_sets", None),
+    "c18_pole_farthest_first.diff": ("box", "contracts.c18:connect_nearest:connect_arg_sets", None),
     "c04_self_feedback_on_green.diff": ("box", "contracts.c04:self_feedback:self_feedback_arg_sets", None),
     "c04_cleanup_keeps_wires_of_removed_gate.diff": ("box", "contracts.c04:cleanup_gates:cleanup_arg_sets", None),
     "../seeded/C04-1/patch.diff": ("box", "contracts.c04:optimize_feedback:feedback_arg_sets", None),
